@@ -1,11 +1,326 @@
 (** C06 - A parameter's value at a date is its latest entry; edits touch only their
-    span.  Only statements here; proofs are in proofs/ParamProofs.v. *)
-From Coq Require Import ZArith List Bool String.
-From Verif Require Import Base Cal Period Param ParamProofs.
+    span.  Only statements here; proofs are in proofs/ParamProofs.v and
+    proofs/ParamTreeProofs.v.  All statements are about the functions of model/Param.v
+    that corr/Corr_C06.v runs against the implementation: [of_yaml], [get_at], [update]
+    (and its phases [update_range]), [at_instant], [scale_at].  Dates are proleptic
+    Gregorian ordinals; a value [None] is the YAML null. *)
+From Coq Require Import ZArith List Bool String Sorted Lia.
+From Verif Require Import Base Cal Period Param ParamProofs ParamTreeProofs.
 Import ListNotations.
 Open Scope Z_scope.
+
+(** ** The value at a date is the value of the latest entry on or before it *)
+
+Theorem get_at_latest : forall (V : Type) (h : hist V) (d : Z), decreasing h ->
+  (exists k v, In (k, v) h /\ k <= d
+      /\ (forall k' v', In (k', v') h -> k' <= d -> k' <= k)
+      /\ get_at h d = v)
+  \/ ((forall k v, In (k, v) h -> d < k) /\ get_at h d = None).
+Proof. exact @get_at_latest_exists. Qed.
+Print Assumptions get_at_latest.
+
+(** whichever entry is the latest on or before [d], its value is the answer *)
+Theorem get_at_latest_any_witness : forall (V : Type) (h : hist V) (d k : Z) (v : option V),
+  decreasing h -> In (k, v) h -> k <= d ->
+  (forall k' v', In (k', v') h -> k' <= d -> k' <= k) ->
+  get_at h d = v.
+Proof. exact @get_at_latest_any. Qed.
+Print Assumptions get_at_latest_any_witness.
+
+Theorem get_at_undefined_before_first : forall (V : Type) (h : hist V) (d : Z),
+  (forall k v, In (k, v) h -> d < k) -> get_at h d = None.
+Proof. exact @get_at_before_first. Qed.
+Print Assumptions get_at_undefined_before_first.
+
+(** ** Construction from data: sorted, 'expected' placeholders dropped *)
+
+(** the keys of a dict are distinct; the result is strictly decreasing and holds
+    exactly the entries that carry a value (null included) *)
+Theorem of_yaml_sorted_values : forall (V : Type) (w : bool) (entries : list (Z * yentry V)) (h : hist V),
+  NoDup (map fst entries) -> of_yaml w entries = Ok h ->
+  decreasing h /\ (forall k v, In (k, v) h <-> In (k, YValue v) entries).
+Proof. exact @of_yaml_spec. Qed.
+Print Assumptions of_yaml_sorted_values.
+
+(** the first sentence of the property, read off the data the parameter was built from *)
+Theorem of_yaml_value_at_latest : forall (V : Type) (w : bool) (entries : list (Z * yentry V))
+    (h : hist V) (d : Z),
+  NoDup (map fst entries) -> of_yaml w entries = Ok h ->
+  (exists k v, In (k, YValue v) entries /\ k <= d
+      /\ (forall k' v', In (k', YValue v') entries -> k' <= d -> k' <= k)
+      /\ get_at h d = v)
+  \/ ((forall k v, In (k, YValue v) entries -> d < k) /\ get_at h d = None).
+Proof. exact @of_yaml_value_at. Qed.
+Print Assumptions of_yaml_value_at_latest.
+
+(** data is refused exactly when an entry is invalid, a key is not a date, or the
+    'values' dict is empty; placeholders never cause a refusal *)
+Theorem of_yaml_refused_iff : forall (V : Type) (w : bool) (entries : list (Z * yentry V)),
+  of_yaml w entries = Err EOther
+  <-> (w = true /\ entries = [])
+      \/ (exists k e, In (k, e) entries /\ (e = YInvalid \/ e = YBadKey)).
+Proof. exact @of_yaml_refuses. Qed.
+Print Assumptions of_yaml_refused_iff.
+
+(** ** update touches only its span - for EVERY history (sorted or not) and all bounds *)
 
 Theorem update_spec : forall (V : Type) (h : hist V) (s e : Z) (v : option V) (d : Z),
   get_at (update_range h s (Some e) v) d = (if (s <=? d) && (d <=? e) then v else get_at h d).
 Proof. exact @update_range_closed_spec. Qed.
 Print Assumptions update_spec.
+
+Theorem update_spec_open_ended : forall (V : Type) (h : hist V) (s : Z) (v : option V) (d : Z),
+  get_at (update_range h s None v) d = (if s <=? d then v else get_at h d).
+Proof. exact @update_range_open_spec. Qed.
+Print Assumptions update_spec_open_ended.
+
+(** the three accepted ways of calling update, and the refused ones *)
+Theorem update_by_period : forall (V : Type) (h : hist V) (p : period) (v : option V),
+  p_unit p <> Eternity ->
+  exists h', update h (Some p) None None v = Ok h'
+    /\ forall d, get_at h' d
+         = if (ord (p_start p) <=? d) && (d <=? ord (Period.stop p)) then v else get_at h d.
+Proof. exact @update_period_spec. Qed.
+Print Assumptions update_by_period.
+
+Theorem update_by_start_stop : forall (V : Type) (h : hist V) (s e : Z) (v : option V),
+  exists h', update h None (Some s) (Some e) v = Ok h'
+    /\ forall d, get_at h' d = if (s <=? d) && (d <=? e) then v else get_at h d.
+Proof. exact @update_start_stop_spec. Qed.
+Print Assumptions update_by_start_stop.
+
+Theorem update_by_start_only : forall (V : Type) (h : hist V) (s : Z) (v : option V),
+  exists h', update h None (Some s) None v = Ok h'
+    /\ forall d, get_at h' d = if s <=? d then v else get_at h d.
+Proof. exact @update_start_only_spec. Qed.
+Print Assumptions update_by_start_only.
+
+Theorem update_ill_formed_calls_refused : forall (V : Type) (h : hist V) (v : option V),
+  (forall p start stop, start <> None \/ stop <> None ->
+     update h (Some p) start stop v = Err EType)
+  /\ (forall stop, update h None None stop v = Err EValue)
+  /\ (forall p, p_unit p = Eternity -> update h (Some p) None None v = Err EValue).
+Proof. exact @update_refused. Qed.
+Print Assumptions update_ill_formed_calls_refused.
+
+(** ** update keeps the history strictly decreasing, so the statements compose *)
+
+Theorem update_sorted : forall (V : Type) (h : hist V) (s : Z) (e : option Z) (v : option V),
+  decreasing h -> (match e with Some e => s <= e | None => True end) ->
+  decreasing (update_range h s e v).
+Proof. exact @update_range_sorted. Qed.
+Print Assumptions update_sorted.
+
+(** ** Any sequence of updates, against the abstract function date -> value *)
+
+Theorem updates_spec : forall (V : Type) (us : list (Z * option Z * option V)) (h : hist V) (d : Z),
+  get_at (apply_updates h us) d
+  = fold_left (fun (f : Z -> option V) (u : Z * option Z * option V) =>
+                 let '(s, e, v) := u in
+                 fun d => if (s <=? d) && match e with Some e => d <=? e | None => true end
+                          then v else f d)
+              us (get_at h) d.
+Proof. exact @apply_updates_spec_explicit. Qed.
+Print Assumptions updates_spec.
+
+Theorem updates_sorted : forall (V : Type) (us : list (Z * option Z * option V)) (h : hist V),
+  decreasing h ->
+  Forall (fun u => match u with (s, Some e, _) => s <= e | (_, None, _) => True end) us ->
+  decreasing (apply_updates h us).
+Proof. exact @apply_updates_sorted. Qed.
+Print Assumptions updates_sorted.
+
+(** the same over calls of [update] itself (period / start+stop / start only / ill-formed),
+    a refused call leaving the history as it was; [call_span] (ParamProofs.v) is the span
+    a call denotes, as in the three theorems update_by_... above *)
+Theorem update_calls_spec : forall (V : Type)
+    (cs : list (option period * option Z * option Z * option V)) (h : hist V) (d : Z),
+  get_at (fold_left (fun h c => let '(p, s, e, v) := c in
+                       match update h p s e v with Ok h' => h' | Err _ => h end) cs h) d
+  = fold_left (fun (f : Z -> option V) c =>
+                 let '(p, s, e, v) := c in
+                 match call_span p s e with
+                 | Ok (a, b) =>
+                     fun d => if (a <=? d) && match b with Some b => d <=? b | None => true end
+                              then v else f d
+                 | Err _ => f
+                 end) cs (get_at h) d.
+Proof. exact @apply_calls_spec_explicit. Qed.
+Print Assumptions update_calls_spec.
+
+Theorem update_call_span : forall (V : Type) (h : hist V) p start stop (v : option V),
+  update h p start stop v
+  = match call_span p start stop with
+    | Ok (s, e) => Ok (update_range h s e v)
+    | Err x => Err x
+    end.
+Proof. exact @update_call. Qed.
+Print Assumptions update_call_span.
+
+(** ** A group at a date exposes exactly the members defined at that date *)
+
+(** the children of the node at an instant are, in declaration order, the members whose
+    own value at the date is not None, each with that value; a leaf is undefined where
+    its history gives None (before its first entry, or a null), groups and scales are
+    always present *)
+Theorem node_at_exposes_defined : forall (ch : list (string * tree)) (d : Z),
+  exists l, at_instant (TNode ch) d = Some (VNode l)
+    /\ Forall2 (fun nc nx => fst nc = fst nx /\ at_instant (snd nc) d = Some (snd nx))
+               (filter (fun nc => match snd nc with
+                                  | TParam h => is_some (get_at h d)
+                                  | TScale _ | TNode _ => true
+                                  end) ch) l
+    /\ (forall n x, In (n, x) l <-> exists c, In (n, c) ch /\ at_instant c d = Some x).
+Proof. exact node_at_lemma. Qed.
+Print Assumptions node_at_exposes_defined.
+
+Theorem member_at_instant : forall (d : Z),
+  (forall h, at_instant (TParam h) d
+             = match get_at h d with Some v => Some (VValue v) | None => None end)
+  /\ (forall s, exists k l, at_instant (TScale s) d = Some (VScale k l) /\ scale_at s d = (k, l))
+  /\ (forall ch, exists l, at_instant (TNode ch) d = Some (VNode l)).
+Proof. exact member_defined. Qed.
+Print Assumptions member_at_instant.
+
+(** ** A scale at a date: which brackets contribute *)
+
+(** the calls of add_bracket: one per bracket whose threshold AND whose field of the
+    chosen kind are both defined at the date, in declaration order, with those values *)
+Theorem scale_at_contributions : forall (k : scale_kind) (brs : list bracket) (d : Z),
+  Forall2 (fun b tx => field_at (b_threshold b) d = Some (fst tx)
+                       /\ field_at (kind_field k b) d = Some (snd tx))
+          (filter (fun b => is_some (field_at (b_threshold b) d)
+                            && is_some (field_at (kind_field k b) d)) brs)
+          (contributions k brs d).
+Proof. exact contributions_spec. Qed.
+Print Assumptions scale_at_contributions.
+
+(** the resulting scale: thresholds strictly increasing; a threshold is present iff some
+    bracket with that threshold and a defined rate/amount exists; its rate/amount is the
+    sum of what those brackets contribute (add_bracket merges equal thresholds) *)
+Theorem scale_at_brackets : forall (s : scale) (d : Z),
+  exists l, scale_at s d = (kind_at s d, l)
+    /\ StronglySorted (fun a b : Z * Z => fst a < fst b) l
+    /\ forall t y, In (t, y) l
+         <-> (exists b, In b (s_brackets s)
+                /\ field_at (b_threshold b) d = Some t
+                /\ field_at (kind_field (kind_at s d) b) d <> None)
+             /\ y = fold_right Z.add 0
+                      (map snd (filter (fun tx : Z * Z => fst tx =? t)
+                                       (contributions (kind_at s d) (s_brackets s) d))).
+Proof. exact scale_at_brackets_lemma. Qed.
+Print Assumptions scale_at_brackets.
+
+(** which kind of scale is assembled (hence which field "rate/amount" means) *)
+Theorem scale_at_kind : forall (s : scale) (d : Z),
+  let has f := exists b, In b (s_brackets s) /\ field_at (f b) d <> None in
+  (s_single_amount s = true -> kind_at s d = SingleAmount)
+  /\ (s_single_amount s = false -> has b_amount -> kind_at s d = MarginalAmount)
+  /\ (s_single_amount s = false -> ~ has b_amount -> has b_average_rate ->
+      kind_at s d = LinearAverageRate)
+  /\ (s_single_amount s = false -> ~ has b_amount -> ~ has b_average_rate ->
+      kind_at s d = MarginalRate).
+Proof. exact kind_at_spec. Qed.
+Print Assumptions scale_at_kind.
+
+(** ** Non-vacuity: the hypotheses are satisfiable and the conclusions say something *)
+
+(** a strictly decreasing history with a null; each disjunct of get_at_latest occurs *)
+Example ex_history : hist Z := [(30, Some 7); (20, None); (10, Some 5)].
+
+Example get_at_latest_nonvacuous :
+  decreasing ex_history
+  /\ get_at ex_history 25 = None /\ get_at ex_history 19 = Some 5
+  /\ get_at ex_history 30 = Some 7 /\ get_at ex_history 9 = None
+  /\ (forall k v, In (k, v) ex_history -> 9 < k).
+Proof.
+  repeat split; try reflexivity; try (simpl; lia).
+  intros k v [H|[H|[H|[]]]]; inversion H; lia.
+Qed.
+
+(** sortedness is needed by get_at_latest: on an unsorted list the first match wins *)
+Example get_at_latest_needs_order :
+  get_at [(10, Some 1); (20, Some 2)] 25 = Some 1.
+Proof. reflexivity. Qed.
+
+(** of_yaml: distinct keys in any order, a placeholder and a null *)
+Example of_yaml_nonvacuous :
+  NoDup (map fst [(10, YValue (Some 5)); (30, YExpected); (20, YValue None); (25, YValue (Some 7))])
+  /\ of_yaml true [(10, YValue (Some 5)); (30, @YExpected Z); (20, YValue None); (25, YValue (Some 7))]
+     = Ok [(25, Some 7); (20, None); (10, Some 5)]
+  /\ of_yaml false [(10, YValue (Some 5)); (0, @YBadKey Z)] = Err EOther
+  /\ of_yaml true (@nil (Z * yentry Z)) = Err EOther
+  /\ of_yaml false (@nil (Z * yentry Z)) = Ok [].
+Proof.
+  repeat split; try reflexivity.
+  repeat constructor; simpl; intuition discriminate.
+Qed.
+
+(** update: an entry inside the span is dropped and its value restored the day after the
+    stop; an entry dated stop+1 is kept as it is; s <= e holds *)
+Example update_nonvacuous :
+  update_range ex_history 15 (Some 24) (Some 1) = [(30, Some 7); (25, None); (15, Some 1); (10, Some 5)]
+  /\ update_range ex_history 15 (Some 29) (Some 1) = [(30, Some 7); (15, Some 1); (10, Some 5)]
+  /\ update_range ex_history 15 None (Some 1) = [(15, Some 1); (10, Some 5)]
+  /\ update_range ex_history 40 (Some 41) (Some 1) = [(42, Some 7); (40, Some 1); (30, Some 7); (20, None); (10, Some 5)]
+  /\ update_range ex_history 1 (Some 2) (Some 1) = [(30, Some 7); (20, None); (10, Some 5); (3, None); (1, Some 1)]
+  /\ decreasing (update_range ex_history 15 (Some 24) (Some 1)).
+Proof. repeat split; try reflexivity; simpl; lia. Qed.
+
+(** update_sorted needs s <= e: a stop before the start gives an unsorted list (while
+    update_spec still holds for it) *)
+Example update_sorted_needs_range :
+  update_range (@nil (Z * option Z)) 10 (Some 5) (Some 1) = [(6, None); (10, Some 1)]
+  /\ ~ decreasing (update_range (@nil (Z * option Z)) 10 (Some 5) (Some 1)).
+Proof. split; [reflexivity|]. simpl. lia. Qed.
+
+Example updates_nonvacuous :
+  Forall (fun u : Z * option Z * option Z =>
+            match u with (s, Some e, _) => s <= e | (_, None, _) => True end)
+         [(15, Some 24, Some 1); (22, None, None); (5, Some 12, Some 9)]
+  /\ apply_updates ex_history [(15, Some 24, Some 1); (22, None, None); (5, Some 12, Some 9)]
+     = [(22, None); (15, Some 1); (13, Some 5); (5, Some 9)].
+Proof. split; [repeat constructor; lia|reflexivity]. Qed.
+
+Example update_calls_nonvacuous :
+  p_unit (Month, (2015, 2, 1), 1) <> Eternity
+  /\ update ex_history (Some (Month, (2015, 2, 1), 1)) None None (Some 1)
+     = Ok [(735658, Some 7); (735630, Some 1); (30, Some 7); (20, None); (10, Some 5)]
+  /\ call_span (Some (Month, (2015, 2, 1), 1)) None None = Ok (735630, Some 735657)
+  /\ update ex_history (Some (Month, (2015, 2, 1), 1)) (Some 3) None (Some 1) = Err EType.
+Proof. repeat split; try reflexivity. discriminate. Qed.
+
+(** a group whose members start at different dates, with a null, a sub-group and a scale *)
+Example ex_tree : list (string * tree) :=
+  [("a"%string, TParam [(10, Some 5)]); ("b"%string, TParam [(30, Some 7); (20, None)]);
+   ("g"%string, TNode [("c"%string, TParam [(40, Some 1)])]);
+   ("s"%string, TScale (mk_scale false []))].
+
+Example node_at_nonvacuous :
+  at_instant (TNode ex_tree) 5
+  = Some (VNode [("g"%string, VNode []); ("s"%string, VScale MarginalRate [])])
+  /\ at_instant (TNode ex_tree) 25
+     = Some (VNode [("a"%string, VValue 5); ("g"%string, VNode []); ("s"%string, VScale MarginalRate [])])
+  /\ at_instant (TNode ex_tree) 45
+     = Some (VNode [("a"%string, VValue 5); ("b"%string, VValue 7);
+                    ("g"%string, VNode [("c"%string, VValue 1)]); ("s"%string, VScale MarginalRate [])]).
+Proof. repeat split; reflexivity. Qed.
+
+(** a scale: a bracket without a defined rate does not contribute, nor one whose
+    threshold is not yet defined; equal thresholds are merged; the kind follows the
+    fields defined at the date *)
+Example ex_scale : scale :=
+  mk_scale false
+    [ mk_bracket (Some [(10, Some 0)]) (Some [(10, Some 1)]) None None;
+      mk_bracket (Some [(10, Some 100)]) (Some [(20, Some 2)]) None None;
+      mk_bracket (Some [(20, Some 50)]) (Some [(10, Some 3)]) None None;
+      mk_bracket (Some [(30, Some 100)]) (Some [(30, Some 4)]) (Some [(40, Some 9)]) None;
+      mk_bracket None (Some [(10, Some 8)]) None None ].
+
+Example scale_at_nonvacuous :
+  scale_at ex_scale 5 = (MarginalRate, [])
+  /\ scale_at ex_scale 15 = (MarginalRate, [(0, 1)])
+  /\ scale_at ex_scale 25 = (MarginalRate, [(0, 1); (50, 3); (100, 2)])
+  /\ scale_at ex_scale 35 = (MarginalRate, [(0, 1); (50, 3); (100, 6)])
+  /\ scale_at ex_scale 45 = (MarginalAmount, [(100, 9)]).
+Proof. repeat split; reflexivity. Qed.
